@@ -504,4 +504,4 @@ def _obligations():
 
 
 def obligations():
-    return _obligations() + [effects_obligation("C02")]
+    return _obligations() + [labels_obligation("C02"), effects_obligation("C02")]
